@@ -44,7 +44,10 @@ def alphabet(tier, ident):
     ops += [("layout", name) for name in ("pile", "list", "tlist", "cols", "bcols", "bare", "solid")]
     ops += [("txt", 0), ("txt", 1), ("txt", 2), ("del", 0), ("del", 1), ("del", 2)]
     ops += [("new", k) for k in ("K", "I", "B")]
-    ops += [("clear",), ("restart",), ("redraw",)]
+    ops += [("clear",), ("restart",), ("redraw",), ("tick",)]
+    ops += [("cimg", "now"), ("cimg", "later"), ("cimgw", 0, "now")]
+    if not quick:
+        ops += [("cimgw", 2, "later")]
     return ops
 
 
@@ -54,7 +57,8 @@ def roots(tier):
     ov_on = dict(on=True, x=2, y=2, img=False)
     ov_off = dict(on=False, x=2, y=2, img=False)
     ov_img = dict(on=True, x=1, y=1, img=True)
-    slots = {"kitty": ["K", "B", "K"], "konsole": ["K", "I", "B"], "other": ["B", "t", "B"]}
+    slots = {"kitty": ["K", "B", "K"], "konsole": ["K", "I", "B"], "other": ["B", "t", "B"],
+             "kitty-0.25": ["K", "B", "K"], "other+forced": ["K", "K", "B"]}
     out = []
 
     def add(ident, size, layout, ov, depth, udepth=0, faults=False, **kw):
@@ -64,7 +68,7 @@ def roots(tier):
     s = (12, 8)
     if quick:
         add("kitty", s, "pile", ov_on, 3, faults=True)
-        add("kitty", s, "list", ov_off, 3, scroll=1, faults=True)
+        add("kitty", s, "list", ov_off, 2, scroll=1, faults=True)
         add("kitty", s, "tlist", ov_off, 2, udepth=2)
         add("kitty", s, "cols", ov_img, 2, faults=True)
         add("kitty", s, "bare", ov_off, 2)
@@ -75,6 +79,10 @@ def roots(tier):
         add("konsole", s, "cols", ov_img, 2)
         add("konsole", s, "bare", ov_off, 2)
         add("other", s, "pile", ov_on, 2, faults=True)
+        add("kitty-0.25", s, "bcols", ov_off, 2)
+        add("kitty-0.25", s, "pile", ov_on, 2)
+        add("other+forced", s, "cols", ov_off, 2)
+        add("other+forced", s, "list", ov_off, 2, scroll=1)
         add("other", s, "list", ov_off, 2, scroll=1)
         return out
     for ident in ("kitty", "konsole"):
@@ -89,6 +97,11 @@ def roots(tier):
         add(ident, (20, 10), "pile", ov_on, 3)
         add(ident, (20, 10), "list", ov_off, 3, scroll=2, faults=True)
         add(ident, (20, 10), "bcols", ov_img, 3)
+    for ident in ("kitty-0.25", "other+forced"):
+        add(ident, s, "bcols", ov_off, 3, faults=True)
+        add(ident, s, "cols", ov_img, 3)
+        add(ident, s, "pile", ov_on, 3)
+        add(ident, s, "list", ov_off, 3, scroll=1)
     add("other", s, "pile", ov_on, 3, faults=True)
     add("other", s, "list", ov_off, 3, scroll=1)
     add("other", (20, 10), "cols", ov_on, 2)
@@ -489,7 +502,10 @@ def run(ctx):
         "vterm (vlib/vterm.py) is the terminal: kitty identity keeps equal (cell, z) placements side by side, "
         "konsole replaces them; `a=d` deletes by z-index / cursor cell / all; CSI 2J/K never remove placements",
         "graphics widgets are only put on terminals that support them (kitty: kitty; konsole: kitty + iterm2; "
-        "other: block images only)",
+        "other: block images only; kitty-0.25: kitty 0.25.0; other+forced: an unrecognised terminal that implements "
+        "the kitty protocol, KittyImage.forced_support set, placements behave as on kitty)",
+        "after the public clear_images() ops the application draws a NEW top-level canvas around the cached image "
+        "canvases (with the identical canvas object urwid's own quick return paints nothing at all)",
         "the screen output file is buffered and delivered to the terminal on flush(); 'cleared on clear()' is "
         "judged once that buffer is flushed",
         "states are merged on (scene, widget z/disguise, class disguise state, allocator state); the canvases "
